@@ -93,6 +93,11 @@ fn writer(tier: &str) -> Vec<String> {
         v.push(format!("qflush:cap=16:sq=1:prog={}WF:P=3", prog));
         v.push(format!("qflush:cap=16:h=1:qcap=2:prog={}:P=3", prog));
     }
+    // UDP sinks over a caller-connected socket whose peer goes away and comes back (the one way a
+    // real UDP write fails on loopback: a queued ECONNREFUSED)
+    for cap in [0, 8, 16, 64] {
+        v.push(format!("sock-conn:cap={}:depth={}", cap, if thorough { 7 } else { 5 }));
+    }
     // handles of the queuing wrapper dropped while the buffered sink behind it holds metrics (three
     // lines fit a datagram): dropping a clone is not a reason to write
     for prog in ["EWXEWF", "EXEWXEF", "EEWXWEEEEWF", "XEEWF", "EWXWEWXWE"] {
@@ -688,6 +693,11 @@ fn c12(tier: &str) -> Vec<String> {
 fn c13(tier: &str) -> Vec<String> {
     let th = tier == "thorough";
     let mut v = vec!["sock-unbuf:sink=udp".to_string(), "sock-unbuf:sink=udp6".into(), "sock-unbuf:sink=unix".into()];
+    // caller-connected UDP sockets, the peer going away and coming back
+    v.push(format!("sock-conn:depth={}", if th { 9 } else { 7 }));
+    for cap in [0, 8, 16] {
+        v.push(format!("sock-conn:cap={}:depth={}", cap, if th { 7 } else { 5 }));
+    }
     for sink in ["udp", "unix"] {
         for cap in ["8", "16", "1432"] {
             v.push(format!("sock-buf:sink={}:cap={}:depth={}", sink, cap, if th { 4 } else { 3 }));
